@@ -5,6 +5,8 @@ import json
 import common
 import gen
 
+TWINS = ['salt']      # harness/twins.py: which part of a twin text carries the difference
+
 N = {"quick": 120, "thorough": 3000}
 LEAN_MODULE = "Pyab.Properties.C14_full"
 
